@@ -49,6 +49,7 @@ def run_one(pid: str, tier: str, seed: int, replay: str | None) -> int:
     except ModuleNotFoundError:
         print(f"no check for {pid}", file=sys.stderr)
         return 2
+    ctx = None
     try:
         if replay:
             return mod.replay(json.load(open(replay)))
@@ -58,7 +59,20 @@ def run_one(pid: str, tier: str, seed: int, replay: str | None) -> int:
     except MachineryError as ex:
         print(f"[{pid}] MACHINERY FAILURE: {ex}", file=sys.stderr)
         return 2
-    except Exception:
+    except Exception as ex:
+        # An exception that escapes from INSIDE the library, out of a call the driver makes on an input of the property's domain
+        # without expecting a refusal, is the library's behaviour, not a failure of the machinery: the drivers guard every call
+        # where the property allows a refusal, and on the unchanged tree no call raises.  It is reported as a violation.
+        tb = traceback.extract_tb(ex.__traceback__)
+        lib = str(core.REPO) + os.sep if hasattr(core, "REPO") else os.environ.get("VERIF_REPO", "/repo") + os.sep
+        in_library = bool(tb) and tb[-1].filename.startswith((lib, "/venv/lib")) and any(f.filename.startswith(lib) for f in tb)
+        if ctx is not None and in_library and not isinstance(ex, (MemoryError, KeyboardInterrupt)):
+            site = next((f for f in reversed(tb) if "/harness/" in f.filename), tb[0])
+            ctx.violation(f"library-raises/{type(ex).__name__}/{os.path.basename(site.filename)}:{site.name}", {"call_site": f"{site.filename}:{site.lineno}", "line": site.line,
+                          "traceback": traceback.format_exception(ex)[-6:]}, "a value (the unchanged library returns one here)", f"{type(ex).__name__}: {ex}",
+                          note=f"the library raised {type(ex).__name__} out of {os.path.basename(site.filename)}:{site.lineno} `{site.line}`; the check stopped there")
+            ctx.finish()
+            return 1
         print(f"[{pid}] MACHINERY FAILURE (harness exception):", file=sys.stderr)
         traceback.print_exc()
         return 2
